@@ -9,7 +9,7 @@ from ..core import HarnessError, Violation
 
 ID = "C02"
 LEVEL = "exploration"
-RULE = ("Hypothesis draws any declarable SchemaSpec (13 types, all list forms x len forms, dicts "
+RULE = ("exhaustive: typed lists of every scalar kind x all ordered pairs of 16 equal-valued scalars of different types (1/1.0/True, 0/0.0/False, 2**70/float, ...); then Hypothesis draws any declarable SchemaSpec (13 types, all list forms x len forms, dicts "
         "with optional/relaxed keys (`...: ...` at any position), any, alias, and schemas combined with | + make_required; depth<=3; satisfiable or not) and a value from "
         "four sources: built to conform (independently of d42's generator), conforming with one "
         "spec-aware near-miss (min-1, max+1, len+-1, char outside alphabet, broken substring, "
@@ -55,6 +55,24 @@ def _case(draw):
 
 def strategy(tier):
     return _case()
+
+
+def exhaustive(tier):
+    """typed lists / dict members / any-alternatives of every scalar type  x  short value lists built from
+    equal-valued scalars of different types (1 / 1.0 / True, 0 / 0.0 / False, 2**70 / float(2**70), '' / b'')
+    in both orders: anything that remembers or compares members by value alone goes wrong exactly here"""
+    twins = [1, 1.0, True, 0, 0.0, False, 2 ** 70, float(2 ** 70), 3, 3.0, "", b"", "a", None, -1, -1.0]
+    elems = [{"t": "int"}, {"t": "float"}, {"t": "bool"}, {"t": "str"}, {"t": "bytes"}, {"t": "none"},
+             {"t": "int", "value": 1}, {"t": "float", "value": 1.0}, {"t": "int", "min": 0, "max": 1, "order": ["min", "max"]},
+             {"t": "any", "alts": [{"t": "int"}, {"t": "str"}]}]
+    for e in elems:
+        typed = {"t": "list", "form": "typed", "elem": e}
+        for a in twins:
+            for b in twins:
+                yield {"spec": typed, "value": [a, b], "src": "conforming", "applied": None}
+        yield {"spec": typed, "value": [1, 1, 1.0, 1], "src": "conforming", "applied": None}
+        yield {"spec": {"t": "dict", "entries": [{"key": "x", "opt": False, "spec": e}, {"key": "y", "opt": False, "spec": e}],
+                        "relaxed": False}, "value": {"x": 1, "y": 1.0}, "src": "conforming", "applied": None}
 
 
 def check(case, ctx):
